@@ -31,6 +31,12 @@ def gen_program(rng, tier):
     canon = rng.choice([0, 1])                    # the shape's strides are canonical-left or canonical-right
     t0 = rng.randrange(8)
     es = [rng.choice([1, 2, 3, 4]) for _ in range(R)]
+    # constructor-focused programs: a mixed pattern with a static extent before a dynamic one, pairwise different
+    # extents, default accessor, and several views built through the value-carrying constructor forms
+    focus = rng.random() < 0.3
+    if focus:
+        R = rng.choice([2, 3, 3, 4])
+        es = rng.sample([1, 2, 3, 4, 5], R)
     ss = left_strides(es) if canon == 0 else right_strides(es)
     if prod1(es) > imax(t0):
         return None
@@ -38,6 +44,8 @@ def gen_program(rng, tier):
     # a chain of 2-3 types, each constructible from the previous one
     types = []
     lay = rng.choice([canon, 2])
+    if focus:
+        acc, lay = 0, canon
     et = "int"
     for k in range(rng.choice([2, 3])):
         if k > 0:
@@ -63,6 +71,8 @@ def gen_program(rng, tier):
             pat = tuple([DYN] * R)
         else:
             pat = rand_pattern(rng, es, 0.5)
+        if focus and k == 0:
+            pat = list(rand_pattern(rng, es, 0.5)); q = rng.randrange(R - 1); pat[q] = es[q]; pat[q + 1] = DYN; pat = tuple(pat)
         types.append(PT(et, t_cur, lay, pat, acc))
     # a second mapping value of type 0 (same type, different state): other dynamic extents and / or other strides
     ty0 = types[0]
@@ -103,15 +113,17 @@ def gen_program(rng, tier):
         vars_.append(ty); return len(vars_) - 1
     # first: construct one or two views of type 0
     used_h = set()
-    for _ in range(rng.choice([2, 2, 3])):
+    for _ in range(rng.choice([3, 4]) if focus else rng.choice([2, 2, 3])):
         ty = types[0]
-        kinds = [6, 7] if ty.lay == 2 else [0, 1, 2, 3, 5, 6, 7]
+        kinds = [6, 7] if ty.lay == 2 else [0, 1, 2, 3, 5, 6, 7, 9, 10, 10]
         if ty.lay != 2 and all(p != DYN for p in ty.pat) and R > 0:
-            kinds = [1, 3, 5, 6, 7]                 # no dynamic extents: the (handle, dynamic extents...) forms take no values
+            kinds = [1, 3, 5, 6, 7, 10]             # no dynamic extents: the (handle, dynamic extents...) forms take no values
         if ty.acc == 1:
             kinds = [7]                              # the other forms default-construct the accessor
         kind = rng.choice(kinds)
-        if len(vars_) >= 1 and (es2 != es or ss2 != ss) and rng.random() < 0.6:
+        if focus:
+            kind = rng.choice([0, 1, 2, 3, 5, 9, 10, 10])
+        elif len(vars_) >= 1 and (es2 != es or ss2 != ss) and rng.random() < 0.6:
             kind = 8                                 # (handle, the second mapping value, accessor)
         h = rng.choice([x for x in range(8) if x not in used_h]); used_h.add(h)
         v = newvar(0)
@@ -130,6 +142,9 @@ def gen_program(rng, tier):
             code.append("%s v%d(%s, std::array<I0, %d>{%s});" % (T, v, hexpr, nd, dynv))
         elif kind == 3:
             code.append("%s v%d(%s, std::array<I0, %d>{%s});" % (T, v, hexpr, R, allv))
+        elif kind in (9, 10):
+            n_, vv_ = (nd, dynv) if kind == 9 else (R, allv)
+            code.append(("std::array<I0, %d> sp%d{%s};\n" % (n_, v, vv_)) + "#ifdef __cpp_lib_span\n    %s v%d(%s, std::span<I0, %d>(sp%d.data(), %d));\n#else\n    %s v%d(%s, sp%d);\n#endif" % (T, v, hexpr, n_, v, n_, T, v, hexpr, v))
         elif kind == 5:
             code.append("%s v%d(%s, typename T0::extents_type(std::array<I0, %d>{%s}));" % (T, v, hexpr, R, allv))
         elif kind == 6:
@@ -138,7 +153,7 @@ def gen_program(rng, tier):
             code.append("%s v%d(%s, m1, drv::make_acc<typename T0::accessor_type>::make(%d));" % (T, v, hexpr, h))
         else:
             code.append("%s v%d(%s, m0, drv::make_acc<typename T0::accessor_type>::make(%d));" % (T, v, hexpr, h))
-        if kind in (0, 1, 2, 3, 5, 6) and ty.acc == 1:
+        if kind in (0, 1, 2, 3, 5, 6, 9, 10) and ty.acc == 1:
             # these forms default-construct the accessor: the stateful accessor's default id is 0, not 3
             return None
     while len(ops) < nops:
@@ -227,6 +242,10 @@ def gen(rng, tier):
         for op in ops:
             toks += op
         cases.append((pr, toks, {"ops": ops, "types": [t.desc() for t in types], "es": es, "ss": ss, "es2": es2, "ss2": ss2, "rank": R, "nvars": len(vars_)}))
+        for op in ops:
+            if op[0] == 0:
+                hist["ctor form=%s" % {0: "(h, dynamic extents...)", 1: "(h, all extents...)", 2: "(h, array of dynamic)", 3: "(h, array of all)", 5: "(h, extents)", 6: "(h, mapping)",
+                                       7: "(h, mapping, accessor)", 8: "(h, second mapping value, accessor)", 9: "(h, span of dynamic)", 10: "(h, span of all)"}[op[2]]] += 1
         if any(op[0] == 0 and op[2] == 8 for op in ops):
             hist["pools holding two different mapping values of one type"] += 1
             if all(p != DYN for p in types[0].pat) and types[0].lay == 2:
